@@ -8,9 +8,9 @@ def run(tier, replay=None):
         T.validate(c, "C04", replay); return c.finish()
     thorough = tier == "thorough"
     cases = T.corpus(c, thorough, thorough)
-    tr = T.observe(c, cases, 60, 6 if thorough else 4, limit=None if thorough else 12)
+    tr = T.observe(c, cases, 60, 6 if thorough else 4, limit=None)
     T.validate(c, "C04", tr)
     c.cov["exhaustive"] = False
     c.cov["rule"] = "TLC-enumerated built-in type expressions; for each expression with a codec impl, random values (boundary-biased) are encoded by the real codec and TLC decodes the bytes from the REAL registry description alone (ScaleValue.Dec), requiring exact consumption and equality with a hand-written value tree; every expression's type_info() (incl. char, 19/20-tuples, Lsb0/Msb0) is compared with the documented shape BuiltinInfo"
-    c.assumptions += ["the value oracle harness/vh/src/val.rs is written from the language/SCALE documentation, not from TypeInfo", "quick tier observes the first 12 programs of the corpus"]
+    c.assumptions += ["the value oracle harness/vh/src/val.rs is written from the language/SCALE documentation, not from TypeInfo"]
     return c.finish()
